@@ -8,6 +8,7 @@ import (
 	"go/token"
 	"go/types"
 	"math/big"
+	"strings"
 
 	"golang.org/x/tools/go/ssa"
 )
@@ -204,6 +205,7 @@ func (ex *Exec) instr(fr *Frame, st *State, in ssa.Instruction) {
 		default:
 			if isStringType(x.X.Type()) {
 				ex.boundsCheck(fr, st, idx, sx("g_strlen", base.S), x.Pos())
+				ex.strAxioms()
 				fr.vals[x] = Term{S: sx("g_strat", base.S, idx), T: x.Type()}
 				return
 			}
@@ -214,6 +216,7 @@ func (ex *Exec) instr(fr *Frame, st *State, in ssa.Instruction) {
 			idx := ex.toIdx(ex.term(fr, st, x.Index))
 			base := ex.term(fr, st, x.X)
 			ex.boundsCheck(fr, st, idx, sx("g_strlen", base.S), x.Pos())
+			ex.strAxioms()
 			fr.vals[x] = Term{S: sx("g_strat", base.S, idx), T: x.Type()}
 			return
 		}
@@ -367,33 +370,30 @@ func (ex *Exec) nilCheck(fr *Frame, st *State, ref string, pos token.Pos) {
 }
 
 func (ex *Exec) toIdx(t Term) string {
-	// index expressions may be of any integer type; normalise to the index sort
-	if ex.vc.mode == ModeBV {
-		w := widthOf(t.T)
-		if w < 64 {
-			if isSigned(t.T) {
-				return sx(fmt.Sprintf("(_ sign_extend %d)", 64-w), t.S)
-			}
-			return sx(fmt.Sprintf("(_ zero_extend %d)", 64-w), t.S)
-		}
+	// index expressions may be of any integer type; normalise to the (mathematical) index sort
+	if ex.vc.tc.isBV(t.T) {
+		return ex.bvToInt(t.S, widthOf(t.T), isSigned(t.T))
 	}
 	return t.S
 }
 
-func (ex *Exec) cmpIdx(op, a, b string) string {
-	if ex.vc.mode == ModeBV {
-		m := map[string]string{"<": "bvslt", "<=": "bvsle", ">": "bvsgt", ">=": "bvsge"}
-		return sx(m[op], a, b)
+func (ex *Exec) bvToInt(s string, w int, signed bool) string {
+	if !signed {
+		return sx("bv2nat", s)
 	}
-	return sx(op, a, b)
+	m := new(big.Int).Lsh(big.NewInt(1), uint(w)).String()
+	return sIte(sx("bvslt", s, fmt.Sprintf("(_ bv0 %d)", w)), sx("-", sx("bv2nat", s), m), sx("bv2nat", s))
 }
 
+func (ex *Exec) cmpIdx(op, a, b string) string { return sx(op, a, b) }
+
 func (ex *Exec) boundsCheck(fr *Frame, st *State, idx, length string, pos token.Pos) {
-	if !ex.safetyOn(fr) {
-		return
-	}
 	g := sAnd(ex.cmpIdx("<=", ex.vc.tc.idxLit(0), idx), ex.cmpIdx("<", idx, length))
-	ex.oblige(fr, st, "index", g, "index in range", pos)
+	if ex.safetyOn(fr) {
+		ex.oblige(fr, st, "index", g, "index in range", pos)
+	}
+	// execution continues only if the index was in range
+	ex.assume(st, g)
 }
 
 func (ex *Exec) unop(fr *Frame, st *State, x *ssa.UnOp) Value {
@@ -409,6 +409,8 @@ func (ex *Exec) unop(fr *Frame, st *State, x *ssa.UnOp) Value {
 					ex.loadedFacts(st, t)
 				} else if _, isG := a.Loc.Root.(GlobalRoot); isG {
 					ex.loadedFacts(st, t)
+				} else if isInterface(t.T) && len(a.Loc.Path) > 0 {
+					ex.typeFacts(st, t.S, t.T)
 				}
 			}
 			return v
@@ -430,7 +432,7 @@ func (ex *Exec) unop(fr *Frame, st *State, x *ssa.UnOp) Value {
 			ex.vc.declareFun("f64_neg", "(F64)", "F64")
 			return Term{S: sx("f64_neg", v.S), T: x.Type()}
 		}
-		if ex.vc.mode == ModeBV {
+		if tc.isBV(x.Type()) {
 			return Term{S: sx("bvneg", v.S), T: x.Type()}
 		}
 		r := Term{S: sx("-", v.S), T: x.Type()}
@@ -438,7 +440,7 @@ func (ex *Exec) unop(fr *Frame, st *State, x *ssa.UnOp) Value {
 		return r
 	case token.XOR:
 		v := ex.term(fr, st, x.X)
-		if ex.vc.mode == ModeBV {
+		if tc.isBV(x.Type()) {
 			return Term{S: sx("bvnot", v.S), T: x.Type()}
 		}
 		if isSigned(x.Type()) {
@@ -466,7 +468,7 @@ func (ex *Exec) loadedFacts(st *State, t Term) {
 }
 
 func (ex *Exec) overflowCheck(fr *Frame, st *State, r Term, pos token.Pos) {
-	if ex.vc.mode != ModeInt || !isIntType(r.T) {
+	if ex.vc.tc.isBV(r.T) || !isIntType(r.T) {
 		return
 	}
 	if !ex.safetyOn(fr) || (fr.contract != nil && fr.contract.NoOvf) {
@@ -529,7 +531,7 @@ func (ex *Exec) binopTerms(fr *Frame, st *State, op token.Token, a, b Term, xt, 
 	switch {
 	case isIntType(xt):
 		signed := isSigned(xt)
-		if vc.mode == ModeBV {
+		if vc.tc.isBV(xt) {
 			var s string
 			switch op {
 			case token.ADD:
@@ -537,20 +539,20 @@ func (ex *Exec) binopTerms(fr *Frame, st *State, op token.Token, a, b Term, xt, 
 			case token.SUB:
 				s = sx("bvsub", a.S, b.S)
 			case token.MUL:
-				s = sx("bvmul", a.S, b.S)
+				s = ex.nonlinear("bvmul", a.S, b.S, widthOf(xt))
 			case token.QUO:
 				ex.divCheck(fr, st, b, pos)
 				if signed {
-					s = sx("bvsdiv", a.S, b.S)
+					s = ex.nonlinear("bvsdiv", a.S, b.S, widthOf(xt))
 				} else {
-					s = sx("bvudiv", a.S, b.S)
+					s = ex.nonlinear("bvudiv", a.S, b.S, widthOf(xt))
 				}
 			case token.REM:
 				ex.divCheck(fr, st, b, pos)
 				if signed {
-					s = sx("bvsrem", a.S, b.S)
+					s = ex.nonlinear("bvsrem", a.S, b.S, widthOf(xt))
 				} else {
-					s = sx("bvurem", a.S, b.S)
+					s = ex.nonlinear("bvurem", a.S, b.S, widthOf(xt))
 				}
 			case token.AND:
 				s = sx("bvand", a.S, b.S)
@@ -562,7 +564,12 @@ func (ex *Exec) binopTerms(fr *Frame, st *State, op token.Token, a, b Term, xt, 
 				s = sx("bvand", a.S, sx("bvnot", b.S))
 			case token.SHL, token.SHR:
 				// shift count may have a different width: resize to operand width
-				cnt := ex.resizeBV(b.S, widthOf(b.T), widthOf(xt), false)
+				var cnt string
+				if vc.tc.isBV(b.T) {
+					cnt = ex.resizeBV(b.S, widthOf(b.T), widthOf(xt), false)
+				} else {
+					cnt = sx(fmt.Sprintf("(_ int2bv %d)", widthOf(xt)), b.S)
+				}
 				if op == token.SHL {
 					s = sx("bvshl", a.S, cnt)
 				} else if signed {
@@ -677,6 +684,40 @@ func (ex *Exec) binopTerms(fr *Frame, st *State, op token.Token, a, b Term, xt, 
 	panic(unsupported(fmt.Sprintf("operator %s on %s", op, xt)))
 }
 
+// nonlinear: bit-vector * / % with two symbolic operands are emitted as uninterpreted functions shared
+// by code and specification (plus a few true facts about them); with a literal operand they are interpreted.
+func (ex *Exec) nonlinear(op, a, b string, w int) string {
+	isLit := func(s string) bool { return strings.HasPrefix(s, "(_ bv") }
+	if ex.interpretNL || isLit(a) || isLit(b) {
+		return sx(op, a, b)
+	}
+	vc := ex.vc
+	name := fmt.Sprintf("g_%s%d", op[2:], w)
+	bvs := fmt.Sprintf("(_ BitVec %d)", w)
+	vc.declareFun(name, "("+bvs+" "+bvs+")", bvs)
+	zero, one := fmt.Sprintf("(_ bv0 %d)", w), fmt.Sprintf("(_ bv1 %d)", w)
+	q := func(body string) string { return fmt.Sprintf("(forall ((x %s)) (! %s :pattern (%s)))", bvs, body, "PAT") }
+	_ = q
+	ax := func(id, pat, body string) {
+		vc.addAxiom(name+"_"+id, fmt.Sprintf("(forall ((x %s)) (! %s :pattern (%s)))", bvs, body, pat), name)
+	}
+	switch op {
+	case "bvmul":
+		ax("zl", sx(name, zero, "x"), sEq(sx(name, zero, "x"), zero))
+		ax("zr", sx(name, "x", zero), sEq(sx(name, "x", zero), zero))
+		ax("ol", sx(name, one, "x"), sEq(sx(name, one, "x"), "x"))
+		ax("or", sx(name, "x", one), sEq(sx(name, "x", one), "x"))
+	case "bvsdiv", "bvudiv":
+		ax("zl", sx(name, zero, "x"), sImp(sNot(sEq("x", zero)), sEq(sx(name, zero, "x"), zero)))
+		ax("or", sx(name, "x", one), sEq(sx(name, "x", one), "x"))
+	case "bvsrem", "bvurem":
+		ax("zl", sx(name, zero, "x"), sImp(sNot(sEq("x", zero)), sEq(sx(name, zero, "x"), zero)))
+		ax("or", sx(name, "x", one), sEq(sx(name, "x", one), zero))
+	}
+	vc.note("bit-vector %s with two symbolic operands is an uninterpreted function (zero/one laws assumed)", op)
+	return sx(name, a, b)
+}
+
 func (ex *Exec) resizeBV(s string, from, to int, signed bool) string {
 	if from == to {
 		return s
@@ -691,10 +732,11 @@ func (ex *Exec) resizeBV(s string, from, to int, signed bool) string {
 }
 
 func (ex *Exec) divCheck(fr *Frame, st *State, b Term, pos token.Pos) {
-	if !ex.safetyOn(fr) {
-		return
+	g := sNot(sEq(b.S, ex.vc.tc.intLit64(0, b.T)))
+	if ex.safetyOn(fr) {
+		ex.oblige(fr, st, "div", g, "division by zero", pos)
 	}
-	ex.oblige(fr, st, "div", sNot(sEq(b.S, ex.vc.tc.intLit64(0, b.T))), "division by zero", pos)
+	ex.assume(st, g)
 }
 
 func (ex *Exec) convert(fr *Frame, st *State, x *ssa.Convert) Value {
@@ -703,8 +745,14 @@ func (ex *Exec) convert(fr *Frame, st *State, x *ssa.Convert) Value {
 	switch {
 	case isIntType(from) && isIntType(to):
 		fw, tw := widthOf(from), widthOf(to)
-		if ex.vc.mode == ModeBV {
+		fbv, tbv := ex.vc.tc.isBV(from), ex.vc.tc.isBV(to)
+		switch {
+		case fbv && tbv:
 			return Term{S: ex.resizeBV(v.S, fw, tw, isSigned(from)), T: to}
+		case fbv && !tbv:
+			return Term{S: ex.vc.define("cv", "Int", ex.bvToInt(v.S, fw, isSigned(from))), T: to}
+		case !fbv && tbv:
+			return Term{S: sx(fmt.Sprintf("(_ int2bv %d)", tw), v.S), T: to}
 		}
 		lo, hi := intRange(tw, isSigned(to))
 		flo, fhi := intRange(fw, isSigned(from))
@@ -866,43 +914,32 @@ func (ex *Exec) mkSubslice(so, elemSort, arr, lo, hi string) string {
 	vc := ex.vc
 	tc := vc.tc
 	zero := tc.idxLit(0)
-	var ln string
-	if vc.mode == ModeBV {
-		ln = sx("bvsub", hi, lo)
-	} else {
-		ln = sx("-", hi, lo)
-	}
+	ln := sx("-", hi, lo)
 	if lo == zero {
 		return vc.define("sl", so, sx("mk_"+so, arr, hi))
 	}
 	// shifted array: fresh array with a quantified definition
 	na := vc.fresh("shift", sx("Array", tc.idxSort(), elemSort))
-	var plus string
-	if vc.mode == ModeBV {
-		plus = sx("bvadd", "qk!", lo)
-	} else {
-		plus = sx("+", "qk!", lo)
-	}
+	plus := sx("+", "qk!", lo)
 	vc.addAxiom("shiftdef_"+na, fmt.Sprintf("(forall ((qk! %s)) (! (= (select %s qk!) (select %s %s)) :pattern ((select %s qk!))))", tc.idxSort(), na, arr, plus, na), na)
 	return vc.define("sl", so, sx("mk_"+so, na, ln))
 }
 
 func (ex *Exec) sliceCheck(fr *Frame, st *State, lo, hi, ln string, pos token.Pos) {
-	if !ex.safetyOn(fr) {
-		return
-	}
 	g := sAnd(ex.cmpIdx("<=", ex.vc.tc.idxLit(0), lo), ex.cmpIdx("<=", lo, hi), ex.cmpIdx("<=", hi, ln))
-	ex.oblige(fr, st, "slice", g, "slice bounds in range (length used for capacity)", pos)
+	if ex.safetyOn(fr) {
+		ex.oblige(fr, st, "slice", g, "slice bounds in range (length used for capacity)", pos)
+	}
 }
 
 func (ex *Exec) strAxioms() {
 	vc := ex.vc
-	if vc.mode != ModeInt {
-		return
-	}
+	vc.tc.strBytes = true
 	vc.addAxiom("strlen_nonneg", "(forall ((s Str)) (! (>= (g_strlen s) 0) :pattern ((g_strlen s))))", "g_strlen")
 	vc.addAxiom("strlen_concat", "(forall ((a Str) (b Str)) (! (= (g_strlen (g_concat a b)) (+ (g_strlen a) (g_strlen b))) :pattern ((g_concat a b))))", "g_concat")
 	vc.addAxiom("strlen_substr", "(forall ((s Str) (i Int) (j Int)) (! (=> (and (<= 0 i) (<= i j) (<= j (g_strlen s))) (= (g_strlen (g_substr s i j)) (- j i))) :pattern ((g_substr s i j))))", "g_substr")
 	vc.addAxiom("strat_substr", "(forall ((s Str) (i Int) (j Int) (k Int)) (! (=> (and (<= 0 i) (<= i j) (<= j (g_strlen s)) (<= 0 k) (< k (- j i))) (= (g_strat (g_substr s i j) k) (g_strat s (+ i k)))) :pattern ((g_strat (g_substr s i j) k))))", "g_substr")
-	vc.addAxiom("strat_range", "(forall ((s Str) (i Int)) (! (and (<= 0 (g_strat s i)) (<= (g_strat s i) 255)) :pattern ((g_strat s i))))", "g_strat")
+	if !vc.tc.isBV(types.Typ[types.Uint8]) {
+		vc.addAxiom("strat_range", "(forall ((s Str) (i Int)) (! (and (<= 0 (g_strat s i)) (<= (g_strat s i) 255)) :pattern ((g_strat s i))))", "g_strat")
+	}
 }
